@@ -133,6 +133,21 @@ class Impl:
             OnVisitor(track_parents=True).visit(sample)
             OnTransformer(track_new_parents=True).visit(sample)
             OnPath().visit(sample)
+            # ... and an application's own, differently opinionated, subclass of the checker (seeded C20-H: the
+            # dispatch memoised per item class on the CLASS, shared with every subclass)
+            import luqum.check as C
+
+            class LenientCheck(C.LuceneCheck):
+                def check_word(self, item, parents):
+                    return iter(())
+
+                def check_phrase(self, item, parents):
+                    yield "phrases are not welcome here"
+
+                def check_search_field(self, item, parents):
+                    return iter(())
+            LenientCheck(zeal=1).errors(sample)
+            LenientCheck().errors(T.SearchField("bad name", T.Word("a b")))
         except Exception:
             pass        # whatever this does, the checks that follow judge the library
 
